@@ -90,7 +90,7 @@ def S_engine(monitor, extra=(), name="engine", n=(150, 1500), seed_off=0):
     return {"name": name,
             "harness": lambda t, s: ["engine", "-n", str(n[1] if t == "thorough" else n[0]), "-seed", str(s + seed_off), "-tier", t] + list(extra),
             "driver": None, "monitor": monitor,
-            "nontrivial": lambda c: any(b.get("outcome") != "success" or b.get("deploy_fail") for b in c.get("behaviours", {}).values())
+            "nontrivial": lambda c: any(b.get("outcome") != "success" or b.get("deploy_fail") or b.get("start_fail") for b in c.get("behaviours", {}).values())
             or len(c.get("wf", {}).get("steps", [])) > 2,
             "sample": engine_sample}
 
